@@ -15,11 +15,12 @@
 
    Theorems named _partial carry a hypothesis the property text does not have; what is
    excluded is shown by the _refuted example next to it. *)
+From Coq Require Import String.
 From Coq Require Import List Bool NArith ZArith Permutation.
 From Coq Require Import Init.Byte.
-From Bec2 Require Import Base.Result Base.Bytes Gen.Consts Model.Bf2Str Model.Bf2Import
+From Bec2 Require Import Base.Result Base.Bytes Gen.Consts Model.Bf2Str Model.Bf2Import Model.Bf2Render
   Proofs.Bf2UnpackProofs Proofs.Bf2FilterProofs Proofs.Bf2ImportProofs Proofs.Bf2TextProofs
-  Proofs.Bf2ClosureProofs.
+  Proofs.Bf2ClosureProofs Proofs.Bf2RenderProofs.
 Import ListNotations.
 Open Scope N_scope.
 
@@ -304,8 +305,21 @@ Proof.
 Qed.
 Print Assumptions C13_filter_expr_refuted.
 
-(* ---- text level (partial: data lines and data groups only; instruction lines are tied by
-   the correspondence) ------------------------------------------------------------------- *)
+(* ---- text level ---------------------------------------------------------------------------
+   The grammar (Model/Bf2Render.v): a BF2 text is a sequence of items
+     IHeader name value   "##" name ": " value
+     IInstr name []       "#>" name
+     IInstr name params   "#>" name " " k1 "=" v1 "," k2 "=" v2 ...
+     IData lines          ":0000FE00", one ":" + hex(rawdata) line per data line, ":0000FF00"
+   every line followed by the file's line ending (render_file) or every line but the last
+   (render_file_nonl).  item_ok (Proofs/Bf2RenderProofs.v) is the grammar's side condition; it
+   is decidable (C13_text_item_ok_dec) and each of its clauses is needed (C13_text_*_refuted).
+   The model mirrors CPython's str.strip / str.split(None) for code points 0..255 (Bf2Str.v),
+   so as far as /repo is concerned the statements are about Latin-1 texts.
+
+   The two theorems named _partial are kept; C13_text_file subsumes C13_text_group_partial
+   (a one-item file [IData ls] with CRLF) and generalises C13_text_dataline_partial from the
+   two line endings to any blank terminator (C13_text_dataline). *)
 
 (* a data line written as ':' + hex of index(2) type(1) taglen(1) tag extra, with CRLF or LF,
    parses to that line, and rawdata is all its bytes *)
@@ -322,6 +336,264 @@ Theorem C13_text_group_partial : forall ls, ls <> [] -> Forall text_ok ls ->
   parse_text (render_group ls) = Ok [Load ls].
 Proof. exact parse_rendered_group. Qed.
 Print Assumptions C13_text_group_partial.
+
+(* the side conditions, spelled out *)
+Example C13_text_grammar :
+  (forall e, eol_ok e <-> e = [13; 10] \/ e = [10]) /\
+  (forall s, no_lead s <-> forall c t, s = c :: t -> is_space c = false) /\
+  (forall s, no_trail s <-> forall c t, s = t ++ [c] -> is_space c = false) /\
+  (forall n v, item_ok (IHeader n v) <->
+     ~ In 58 n /\ ~ In 10 n /\ n <> s_load /\                        (* name: no ':', no line break, not "load" *)
+     ~ In 58 v /\ ~ In 10 v /\ no_lead v /\ no_trail v) /\            (* value: no ':', no line break, stripped *)
+  (forall n ps, item_ok (IInstr n ps) <->
+     n <> [] /\ (forall c, In c n -> is_space c = false) /\ n <> s_load /\   (* name: one word, not "load" *)
+     Forall (fun kv =>
+       ~ In 10 (fst kv) /\ ~ In 44 (fst kv) /\ ~ In 61 (fst kv) /\ no_lead (fst kv) /\    (* key: no line break , = ; no leading blank *)
+       ~ In 10 (snd kv) /\ ~ In 44 (snd kv) /\ ~ In 61 (snd kv) /\ no_trail (snd kv)) ps) /\ (* value: likewise; no trailing blank *)
+  (forall ls, item_ok (IData ls) <-> ls <> [] /\ Forall text_ok ls) /\
+  (forall l, text_ok l <->
+     exists extra, l_raw l = be 2 (l_ndx l) ++ [n2b (l_type l)] ++ [n2b (blen (l_tag l))] ++ l_tag l ++ extra /\
+                   l_ndx l < 65536 /\ l_type l < 254 /\ blen (l_tag l) < 256).
+Proof. split; [|split; [|split; [|split; [|split; [|split]]]]]; intros; split; intro X; exact X. Qed.
+Print Assumptions C13_text_grammar.
+
+Theorem C13_text_item_ok_dec : forall it, item_okb it = true <-> item_ok it.
+Proof. exact item_okb_iff. Qed.
+Print Assumptions C13_text_item_ok_dec.
+
+(* WHOLE FILES: every text of the grammar parses to exactly the tokens it was rendered from,
+   with CRLF and with LF line ends ... *)
+Theorem C13_text_file : forall eol items, eol_ok eol -> Forall item_ok items ->
+  parse_text (render_file eol items) = Ok (tokens_of items).
+Proof. exact text_file. Qed.
+Print Assumptions C13_text_file.
+
+(* ... and when the last line has no line end *)
+Theorem C13_text_file_no_final_newline : forall eol items, eol_ok eol -> Forall item_ok items ->
+  parse_text (render_file_nonl eol items) = Ok (tokens_of items).
+Proof. exact text_file_nonl. Qed.
+Print Assumptions C13_text_file_no_final_newline.
+
+(* ... and, on the lines the file iterator delivers, with any white space (blanks, tabs, CR,
+   no-break space ...) before the line ends: every line is its rendered body followed by a blank
+   terminator of its own *)
+Theorem C13_text_lines : forall items Ls, Forall item_ok items ->
+  Forall2 (fun b l => exists t, blank t = true /\ l = b ++ t) (file_bodies items) Ls ->
+  parse_lines Ls [] = Ok (tokens_of items).
+Proof. exact text_lines. Qed.
+Print Assumptions C13_text_lines.
+
+(* the text of C13_text_group_partial is the one-item file [IData ls] with CRLF: that theorem is
+   the instance eol = CRLF, items = [IData ls] of C13_text_file *)
+Theorem C13_text_group_subsumed : forall ls, render_group ls = render_file CRLF [IData ls].
+Proof. exact group_is_file. Qed.
+Print Assumptions C13_text_group_subsumed.
+
+(* single lines.  Header comment: the name as it stands, the value stripped ... *)
+Theorem C13_text_header_comment : forall eol n v, eol_ok eol -> item_ok (IHeader n v) ->
+  parse_text ([35; 35] ++ n ++ [58; 32] ++ v ++ eol) = Ok [Instr n (PStr v)].
+Proof. exact text_header_comment. Qed.
+Print Assumptions C13_text_header_comment.
+
+(* ... also with blanks or tabs before the line end (t: any white space) *)
+Theorem C13_text_header_comment_line : forall n v t, item_ok (IHeader n v) -> blank t = true ->
+  parse_meta_line (n ++ [58; 32] ++ v ++ t) = Ok (Instr n (PStr v)).
+Proof. exact meta_line_tailed. Qed.
+Print Assumptions C13_text_header_comment_line.
+
+(* Instruction without parameter: the empty dictionary *)
+Theorem C13_text_instruction : forall eol n, eol_ok eol -> item_ok (IInstr n []) ->
+  parse_text ([35; 62] ++ n ++ eol) = Ok [Instr n (PDict [])].
+Proof. exact text_instruction_noparam. Qed.
+Print Assumptions C13_text_instruction.
+
+(* Instruction with key=value parameters: the dictionary dict() builds from the pairs in order
+   (a repeated key keeps its first position and takes the last value) ... *)
+Theorem C13_text_instruction_params : forall eol n kv ps, eol_ok eol -> item_ok (IInstr n (kv :: ps)) ->
+  parse_text ([35; 62] ++ n ++ [32] ++ join [44] (map param_body (kv :: ps)) ++ eol)
+  = Ok [Instr n (PDict (dupdate str_eqb [] (kv :: ps)))].
+Proof. exact text_instruction_params. Qed.
+Print Assumptions C13_text_instruction_params.
+
+(* ... which is the parameter list as written when no key is repeated *)
+Theorem C13_text_instruction_params_nodup : forall ps : list (str * str),
+  NoDup (map fst ps) -> dupdate str_eqb [] ps = ps.
+Proof. exact dupdate_nodup. Qed.
+Print Assumptions C13_text_instruction_params_nodup.
+
+(* both forms with any white space before the line end *)
+Theorem C13_text_instruction_line : forall n ps t, item_ok (IInstr n ps) -> blank t = true ->
+  parse_cmd_line (match ps with
+                  | [] => n ++ t
+                  | _ => n ++ [32] ++ join [44] (map param_body ps) ++ t
+                  end) = Ok (Instr n (PDict (dupdate str_eqb [] ps))).
+Proof. exact cmd_line_tailed. Qed.
+Print Assumptions C13_text_instruction_line.
+
+(* There is no third parameter form: "#>NAME word" with a word that is not key=value is refused
+   (dict() of a one-element list is a ValueError, which bf2_import reports as
+   Bf3FileFormatError).  So "#>CRC 0x12345678" is not BF2; the CRC is given as "##CRC: 0x...". *)
+Theorem C13_text_instruction_plain_rejected : forall n w t,
+  n <> [] -> (forall c, In c n -> is_space c = false) ->
+  w <> [] -> ~ In 44 w -> ~ In 61 w -> no_lead w -> no_trail w -> blank t = true ->
+  parse_cmd_line (n ++ [32] ++ w ++ t) = Err EValue.
+Proof. exact plain_param_line_rejected. Qed.
+Print Assumptions C13_text_instruction_plain_rejected.
+
+(* a data line with any white space before the line end *)
+Theorem C13_text_dataline : forall ndx ty tag extra t,
+  ndx < 65536 -> ty < 256 -> blen tag < 256 -> blank t = true ->
+  let raw := be 2 ndx ++ [n2b ty] ++ [n2b (blen tag)] ++ tag ++ extra in
+  parse_data_line ([58] ++ hex_upper raw ++ t) = Ok (mkLine ty ndx tag raw).
+Proof. exact parse_data_tailed. Qed.
+Print Assumptions C13_text_dataline.
+
+(* Each clause of item_ok is needed: a one-item file that violates just that clause does not
+   parse back to its item (rt_fails it := parse_text (render_file CRLF [it]) <> Ok (tokens_of [it])). *)
+Example C13_text_header_comment_refuted :
+  rt_fails (IHeader [97; 58; 98] [118])            (* ':' in the name: three fields, ValueError *)
+  /\ rt_fails (IHeader [97; 10; 98] [118])         (* line break in the name *)
+  /\ rt_fails (IHeader s_load [118])               (* reserved name *)
+  /\ rt_fails (IHeader [97] [49; 50; 58; 51; 48])  (* ':' in the value ("12:30"): ValueError *)
+  /\ rt_fails (IHeader [97] [120; 10; 121])        (* line break in the value: cut *)
+  /\ rt_fails (IHeader [97] [32; 118])             (* value starts with a blank: stripped *)
+  /\ rt_fails (IHeader [97] [118; 160]).           (* value ends with a no-break space: stripped *)
+Proof. exact header_clauses_needed. Qed.
+Print Assumptions C13_text_header_comment_refuted.
+
+(* in particular a header value that contains ':' makes the whole file unreadable *)
+Example C13_text_header_value_colon_refuted :
+  parse_text (render_file CRLF [IHeader [97] [49; 50; 58; 51; 48]]) = Err EValue.
+Proof. exact header_value_with_colon_is_an_error. Qed.
+Print Assumptions C13_text_header_value_colon_refuted.
+
+Example C13_text_instruction_refuted :
+  rt_fails (IInstr [] [])                                   (* no name *)
+  /\ rt_fails (IInstr [65; 32; 66] [])                      (* blank in the name: "B" becomes the parameter *)
+  /\ rt_fails (IInstr s_load [])                            (* reserved name *)
+  /\ rt_fails (IInstr [88] [([97; 10], [118])])             (* line break in a key *)
+  /\ rt_fails (IInstr [88] [([97; 44; 98], [118])])         (* ',' in a key *)
+  /\ rt_fails (IInstr [88] [([97; 61; 98], [118])])         (* '=' in a key *)
+  /\ rt_fails (IInstr [88] [([32; 97], [118])])             (* key starts with a blank: stripped *)
+  /\ rt_fails (IInstr [88] [([97], [118; 10; 119])])        (* line break in a value *)
+  /\ rt_fails (IInstr [88] [([97], [118; 44; 119])])        (* ',' in a value *)
+  /\ rt_fails (IInstr [88] [([97], [98; 61; 99])])          (* '=' in a value: three fields, ValueError *)
+  /\ rt_fails (IInstr [88] [([97], [118; 9])]).             (* value ends with a tab: stripped *)
+Proof. exact instr_clauses_needed. Qed.
+Print Assumptions C13_text_instruction_refuted.
+
+Example C13_text_group_refuted :
+  rt_fails (IData [])                                                           (* empty group: no token *)
+  /\ rt_fails (IData [mkLine 0x35 65536 [] [x00; x00; x35; x00]])               (* index beyond 16 bit *)
+  /\ rt_fails (IData [mkLine 254 0 [] [x00; x00; xfe; x00]])                    (* type FE is the start marker *)
+  /\ rt_fails (IData [mkLine 255 0 [] [x00; x00; xff; x00]])                    (* type FF is the end marker *)
+  /\ rt_fails (IData [mkLine 0x35 0 (repeat x00 256) ([x00; x00; x35; x00] ++ repeat x00 256)])  (* tag beyond 255 bytes *)
+  /\ rt_fails (IData [mkLine 0x35 0 [x41] [x00; x00; x36; x01; x41]]).          (* fields differ from the raw bytes *)
+Proof. exact group_clauses_needed. Qed.
+Print Assumptions C13_text_group_refuted.
+
+(* ---- text -> tokens -> components, as ONE statement about the text ----------------------- *)
+
+(* importing a rendered text is importing its items' tokens, whatever the outcome *)
+Theorem C13_text_import_tokens : forall eol items enforce, eol_ok eol -> Forall item_ok items ->
+  bf2_import_text (render_file eol items) enforce = bf2_import (tokens_of items) enforce.
+Proof. exact import_text_tokens. Qed.
+Print Assumptions C13_text_import_tokens.
+
+(* what text_section says about one closed section (component or skipped, with its lines) *)
+Example C13_text_section_def : forall items e, text_section items e <->
+  section_ok e /\
+  match fst e with
+  | None => True
+  | Some cp =>
+    let src := snd e in
+    (* tags: the table entry of the section's first tag type, overwritten by what the
+       instructions in force state (clauses of C13_tags); every instruction in force is an
+       instruction line or header comment of the text with the parameters written there *)
+    (exists i ty fmt hw intf,
+       (forall k p, In (k, p) i -> In (Instr k p) (tokens_of items)) /\
+       dget N.eqb (first_type src) BF2_TAGTYPE_MAP = Some (Some ty, hw, Some fmt, intf) /\
+       exists vR vC vP vH vK vF cid cver vCr vI,
+         st_reboot i vR /\ st_crc i vC /\ st_select i (Some [n2b ty]) vP vH /\
+         st_check i vK /\ st_firmware i (Some [n2b ty]) vF cid cver /\
+         st_creator i vCr /\ st_select_if i true vI /\
+         c_desc cp = oset BF3TAG_INTF vI (oset BF3TAG_FWVER vF (oset BF3TAG_FWVER vK
+                       (oset BF3TAG_HWCID vH (oset BF3TAG_PFID2 vP (oset BF3TAG_CRC vC
+                       (oset BF3TAG_REBOOT vR (initial_desc ty fmt hw intf)))))))) /\
+    (* payload of a blob section: the image its data lines describe *)
+    (dget N.eqb BF3TAG_FMT (c_desc cp) = Some [n2b BF3FMT_BLOB] ->
+     Forall wf_line src -> ascending (first_type src) src ->
+       contig (first_type src) 0 src /\ c_blob cp = concat (map line_data src) /\
+       forall a, image_of (first_type src) src a = in_extent (0%Z, c_blob cp) a) /\
+    (* payload of a BF2-compatible section: the raw lines *)
+    (dget N.eqb BF3TAG_FMT (c_desc cp) = Some [n2b BF3FMT_BF2COMPATIBLE] ->
+       c_blob cp = concat (map l_raw src))
+  end.
+Proof. exact text_section_unfold. Qed.
+Print Assumptions C13_text_section_def.
+
+(* An accepted import of a text of the grammar: the data lines of the text, in file order,
+   are split into consecutive sections; every section satisfies text_section (tags as stated
+   by instruction lines of the text, payload = image / raw lines of exactly its data lines);
+   the returned components are the converted sections reordered by type; every data group
+   starts with a known tag type; with enforcement the marker is present.
+   (C13_text_file composed with C13_sections, C13_emit, C13_tags, C13_section_blob_partial and
+   C13_section_compat, plus the provenance of the instructions.) *)
+Theorem C13_text_import : forall eol items enforce cm cs, eol_ok eol -> Forall item_ok items ->
+  bf2_import_text (render_file eol items) enforce = Ok (cm, cs) ->
+  exists lg,
+    log_lines lg = data_lines items /\
+    Forall (text_section items) lg /\
+    Permutation cs (comps_of lg) /\
+    Forall load_known (tokens_of items) /\
+    (enforce = true -> dmem str_eqb s_Bf3Update cm = true).
+Proof. exact text_import. Qed.
+Print Assumptions C13_text_import.
+
+(* non-vacuity at text level: a two-section file (header comments, SELECT / SELECT_IF with
+   parameters, a blob section closed by #>REBOOT, a main firmware whose data crosses from
+   page 0 (tag type 84) to page 1 (tag type 85) in a second data group) satisfies item_ok, is
+   the text shown, and imports - with either line ending - to the expected components *)
+Example C13_text_nonvacuous :
+  Forall item_ok ex_items /\
+  render_file LF ex_items = lit
+"##Firmware: 1100 IDE ZBA   1.02.03
+##Creator: tool
+##Bf3Update: 1
+#>SELECT FILTER=01 01 00 9B
+#>SELECT_IF PROTOCOL=BRP
+:0000FE00
+:00003506050000414243
+:000135050400034445
+:0000FF00
+#>REBOOT
+:0000FE00
+:0002840706FFFC5A5B5C5D
+:0000FF00
+:0000FE00
+:000385050400005E5F
+:0000FF00
+" /\
+  Forall wf_line [ex_l1; ex_l2] /\ ascending 0x35 [ex_l1; ex_l2] /\
+  forall eol, eol_ok eol ->
+  exists cm c_sm c_main,
+    bf2_import_text (render_file eol ex_items) true = Ok (cm, [c_sm; c_main]) /\
+    c_blob c_sm = [x41; x42; x43; x44; x45] /\
+    c_blob c_main = l_raw ex_m1 ++ l_raw ex_m2 /\
+    dget N.eqb BF3TAG_REBOOT (c_desc c_sm) = Some [x01] /\
+    dget N.eqb BF3TAG_HWCID (c_desc c_sm) = Some [x00; x9b] /\
+    dget N.eqb BF3TAG_PFID2 (c_desc c_sm) = Some [x01; x01; x00; x9b] /\
+    dget N.eqb BF3TAG_INTF (c_desc c_sm) = Some [x00] /\
+    dget N.eqb BF3TAG_REBOOT (c_desc c_main) = None /\
+    dget N.eqb BF3TAG_FWVER (c_desc c_main) = Some [x04; x4c; x01; x02; x03] /\
+    dget str_eqb s_Bf3Update cm = Some (PStr [49]).
+Proof.
+  split; [exact ex_items_ok|]. split; [vm_compute; reflexivity|].
+  split; [repeat constructor|]. split; [vm_compute; intuition discriminate|].
+  intros eol [-> | ->]; (eexists; eexists; eexists; split; [vm_compute; reflexivity|]);
+    vm_compute; repeat split; reflexivity.
+Qed.
+Print Assumptions C13_text_nonvacuous.
 
 (* ---- error closure (cited by C14) ------------------------------------------------------ *)
 
